@@ -88,7 +88,12 @@ type BtcConfig struct {
 // raw chain config
 func NewBtcConfig(chainConfig map[string]interface{}) (*BtcConfig, error) {
 	var c RawBtcConfig
-	err := mapstructure.Decode(chainConfig, &c)
+	err := chain.ValidateDomainID(chainConfig)
+	if err != nil {
+		return nil, err
+	}
+
+	err = mapstructure.Decode(chainConfig, &c)
 	if err != nil {
 		return nil, err
 	}
